@@ -40,7 +40,7 @@ if out:
     old={}
     if os.path.exists(out):
         for l in open(out):
-            m=re.match(r'\| (C\d+-m\d) \|',l)
+            m=re.match(r'\| (C\d+-m\d+) \|',l)
             if m: old[m.group(1)]=l
     for key,det in res.items():
         cells=[]
